@@ -160,6 +160,15 @@ func (pc *PodCache) onEvent(old, pod *v1.Pod, ev model.Event) error {
 	}
 
 	key := config.NamespacedName(pod)
+	removing := ev == model.EventDelete || (ev == model.EventUpdate && (!shouldPodBeInEndpoints(pod) || !IsPodReady(pod)))
+	if removing {
+		// The pod may be cached under an IP other than the one in this event (it was re-created under the same
+		// name and we only saw a single update, e.g. after a relist). Remove what is actually cached for it,
+		// otherwise the old IP keeps resolving to this pod.
+		if cached := pc.getIPByPod(key); len(cached) > 0 {
+			ip = cached
+		}
+	}
 	switch ev {
 	case model.EventAdd:
 		if shouldPodBeInEndpoints(pod) && IsPodReady(pod) {
